@@ -273,6 +273,29 @@ func runC11(c *rt.Ctx) {
 			}
 		}
 	}
+	// ---- (a2) well-formed frames whose key is longer than any memcached key ---------------------
+	// (self-consistent, so the parsers accept them; what the layers below do with a key that fits
+	// none of their fixed-size assumptions must stay an error reply or a closed connection)
+	for _, proto := range []string{"binary", "text"} {
+		for _, kl := range []int{251, 255, 256, 257, 266, 267, 290, 300, 1000, 4096, 65535} {
+			key := strings.Repeat("K", kl)
+			ops := []wire.Op{{Kind: "get", Key: key}, {Kind: "set", Key: key, Val: "v"}, {Kind: "delete", Key: key}, {Kind: "touch", Key: key, TTL: 10},
+				{Kind: "mget", Keys: []string{"a", key, "b"}, Quiet: []bool{proto == "binary", proto == "binary", false}}, {Kind: "append", Key: key, Val: "v"}}
+			if proto == "binary" {
+				ops = append(ops, wire.Op{Kind: "gat", Key: key, TTL: 10}, wire.Op{Kind: "gete", Key: key})
+			}
+			for _, op := range ops {
+				item++
+				if !c.Mine(item) {
+					continue
+				}
+				b := append(wire.Encode(proto, op), wire.Encode(proto, wire.Op{Kind: "get", Key: "after"})...)
+				for _, keep := range []bool{false, true} {
+					try(BadInput{Proto: proto, Bytes: b, KeepOpen: keep, Tag: fmt.Sprintf("longkey op=%s", op.Kind)})
+				}
+			}
+		}
+	}
 	// ---- (b) mutations of valid requests -------------------------------------------------------
 	for _, proto := range []string{"binary", "text"} {
 		for _, op := range repOps(proto) {
